@@ -16,7 +16,7 @@ namespace Model.Diff
 inductive W
   | integer | bigint | smallint | varchar | text | boolean | float | double | numeric | decimal
   | datetime | date | time | blob | json | char | nvarchar | nchar | real | timestamp
-  | clob | binary | varbinary | uuid | precision
+  | clob | binary | varbinary | uuid | precision | collate | nocase | rtrim
   deriving DecidableEq, Repr, Inhabited
 
 def W.toString : W → String
@@ -26,6 +26,7 @@ def W.toString : W → String
   | .time => "TIME" | .blob => "BLOB" | .json => "JSON" | .char => "CHAR" | .nvarchar => "NVARCHAR"
   | .nchar => "NCHAR" | .real => "REAL" | .timestamp => "TIMESTAMP" | .clob => "CLOB"
   | .binary => "BINARY" | .varbinary => "VARBINARY" | .uuid => "UUID" | .precision => "PRECISION"
+  | .collate => "COLLATE" | .nocase => "NOCASE" | .rtrim => "RTRIM"
 
 /-- tokenised DDL type (`Params(token0, tokens, args, kwargs)`; kwargs never occur on SQLite) -/
 structure DTy where
@@ -46,12 +47,13 @@ inductive Fam
 structure MdTy where
   fam : Fam
   args : List Nat := []
+  coll : Option W := none   -- `collation=` of a string type (NOCASE / BINARY / RTRIM on SQLite)
   deriving DecidableEq, Repr, Inhabited
 
 /-- SQLite type compiler (`dialect.type_compiler.process(type)`), tokenised.  Length /
 precision / scale arguments are rendered for string and numeric types and dropped for
 FLOAT/DOUBLE/BLOB; `Enum` renders `VARCHAR(maxlen)`, `Uuid` renders `CHAR(32)`. -/
-def ddlTy (t : MdTy) : DTy :=
+def declTy (t : MdTy) : DTy :=
   match t.fam with
   | .Integer => ⟨.integer, [], []⟩
   | .BigInteger => ⟨.bigint, [], []⟩
@@ -80,9 +82,19 @@ def ddlTy (t : MdTy) : DTy :=
   | .DOUBLE_PRECISION => ⟨.double, [.precision], []⟩
   | .UUID => ⟨.uuid, [], []⟩
 
+/-- the text `type_compiler.process(type)` gives (the metadata side of `compare_type`): the
+declared type followed by `COLLATE "<name>"` when the string type has a collation.  The
+collation is a column constraint in SQLite, not part of the declared type, so the database
+column (`declTy`) and hence the reflected type never carry it. -/
+def ddlTy (t : MdTy) : DTy :=
+  let d := declTy t
+  { d with rest := d.rest ++ (match t.coll with
+      | some c => [W.collate, c]
+      | none => []) }
+
 /-- names present in `SQLiteDialect.ischema_names` (those the catalogue can emit) -/
 def knownName : W → Bool
-  | .clob | .binary | .varbinary | .uuid | .precision => false
+  | .clob | .binary | .varbinary | .uuid | .precision | .collate | .nocase | .rtrim => false
   | _ => true
 
 /-- a declared type reflects by name iff it is a single known word -/
@@ -125,10 +137,19 @@ def compareType (insp md : DTy) : Bool :=
 /-! ## text forms (driver / correspondence only) -/
 
 def DTy.render (d : DTy) : String :=
-  let words := " ".intercalate ((d.t0 :: d.rest).map W.toString)
-  match d.args with
-  | [] => words
-  | as => words ++ "(" ++ ", ".intercalate (as.map toString) ++ ")"
+  let pre := d.rest.takeWhile (fun w => w != W.collate)
+  let post := (d.rest.dropWhile (fun w => w != W.collate)).drop 1
+  let words := " ".intercalate ((d.t0 :: pre).map W.toString)
+  let withArgs := match d.args with
+    | [] => words
+    | as => words ++ "(" ++ ", ".intercalate (as.map toString) ++ ")"
+  match post with
+  | [] => withArgs
+  | cs => withArgs ++ " COLLATE \"" ++ " ".intercalate (cs.map W.toString) ++ "\""
+
+def W.ofString : String → Option W
+  | "NOCASE" => some .nocase | "BINARY" => some .binary | "RTRIM" => some .rtrim
+  | _ => none
 
 def Fam.ofString : _root_.String → Option Fam
   | "Integer" => some .Integer | "BigInteger" => some .BigInteger | "SmallInteger" => some .SmallInteger
